@@ -29,15 +29,17 @@ pub(crate) fn vk_plain_lfu() -> TinyLFU { tlk::vk_tiny_lfu(fck::vk_zero_sketch(8
 pub(crate) fn vk_set_profile(p: &AdmissionPolicy<u64>) -> [u8; 4] {
     let lfu = vk_lfu(p);
     let mut est = [0u8; 4];
-    let mut h = 0u64;
-    while h < 4 {
+    // est[0]: the incoming key (hash 0); est[i + 1]: resident i (hash i + 5: different from its id i + 1)
+    let hashes: [u64; 4] = [0, cwk::hash_of(0), cwk::hash_of(1), cwk::hash_of(2)];
+    let mut k = 0;
+    while k < 4 {
         let f: u8 = kani::any();
         kani::assume(f <= 15);
-        fck::vk_set_counter(tlk::vk_sketch_mut(lfu), h, f);
+        fck::vk_set_counter(tlk::vk_sketch_mut(lfu), hashes[k], f);
         let member: bool = kani::any();
-        dkk::vk_place_if(tlk::vk_doorkeeper_mut(lfu), h as usize, h, member);
-        est[h as usize] = f + if member { 1 } else { 0 };
-        h += 1;
+        dkk::vk_place_if(tlk::vk_doorkeeper_mut(lfu), k, hashes[k], member);
+        est[k] = f + if member { 1 } else { 0 };
+        k += 1;
     }
     est
 }
@@ -81,7 +83,7 @@ fn maybe_add_rule(fixed_n: Option<usize>) {
     let incoming = KeyDescription::new(104u64, 4, 0, w);
     unsafe { NVICTIMS = 0; }
     // the estimate seen through the real code path equals the profile
-    assert!(policy.estimate(0) == est[0] && policy.estimate(2) == est[2], "C06: estimate = sketch minimum (+1 if the doorkeeper holds the key)");
+    assert!(policy.estimate(0) == est[0] && policy.estimate(cwk::hash_of(1)) == est[2], "C06: estimate = sketch minimum (+1 if the doorkeeper holds the key)");
 
     let status = policy.maybe_add(&incoming, &record_victim);
 
